@@ -9,7 +9,7 @@ import (
 // C10 — service survives arbitrary and aborted client byte streams.
 
 func init() {
-	register(&Property{ID: "C04", Gen: genC04, Decode: decodeProto})
+	register(&Property{ID: "C04", Gen: genC04, Decode: decodeEither(decodeProto)})
 	register(&Property{ID: "C10", Gen: genC10, Decode: decodeEither(decodeProto)})
 }
 
@@ -69,7 +69,16 @@ func genMethodString(g *Gen, svc ServiceSpec) string {
 	}
 }
 
+// genC04: method strings against a fixed set of registered names, and (one run
+// in twelve) calls against a set that changes between serving rounds.
 func genC04(seed uint64, tier string) Scenario {
+	if NewGen(seed, 0xC04A).IntN(12) == 0 {
+		return wrapMix("reg", genRegRouting(seed, tier))
+	}
+	return genC04Proto(seed, tier)
+}
+
+func genC04Proto(seed uint64, tier string) Scenario {
 	g := NewGen(seed, 0xC04)
 	s := &ProtoScenario{Prop: "C04", Config: genConfig(g), Scripts: map[int]Script{}}
 	// routing is not schedule-sensitive: keep the scheduler cheap most of the time
